@@ -702,21 +702,27 @@ func (fg *FnGen) appendBuiltin(fr *Frame, c *ssa.CallCommon, args []*Term, st *S
 		}
 		bs := Select(mem, SBase(s))
 		fg.assumeIf(And(reach, Neq(SBase(s), IntLit(0))), Ge(StrLen(bs), Add(SOff(s), SCap(s))))
-		fits := Le(Add(SLen(s), k), SCap(s))
-		// in place
-		p := Add(SOff(s), SLen(s))
-		inPlace := StrCat(Substr(bs, IntLit(0), p), add, Substr(bs, Add(p, k), Sub(StrLen(bs), Add(p, k))))
+		// Model: the result is a fresh backing array holding the old bytes followed by the new ones (Go may extend the old
+		// array in place; bytes of that array beyond len(s) are assumed not to be observed through other slices afterwards).
 		pad := fg.freshConst(fr.prefix+name+"_pad", SString)
 		view := Substr(bs, SOff(s), SLen(s))
-		view = Ite(Eq(SBase(s), IntLit(0)), StrLit(""), view)
-		realloc := StrCat(view, add, pad)
-		newLen := Add(SLen(s), k)
-		res := Ite(fits, MkSlice(SBase(s), SOff(s), newLen, SCap(s)), MkSlice(newBase, IntLit(0), newLen, Add(newLen, StrLen(pad))))
-		rc := fg.freshConst(fr.prefix+name, SSlice)
-		fg.assume(Eq(rc, res))
-		nm := Ite(fits, Store(mem, SBase(s), inPlace), Store(mem, newBase, realloc))
-		// appending nothing to a nil slice keeps it nil; otherwise fits is decided by cap
-		fg.set(st, mn, ms, nm)
+		if !(SBase(s).isSmallInt() && SBase(s).Int != 0) {
+			view = Ite(Eq(SBase(s), IntLit(0)), StrLit(""), view)
+		}
+		// name the two parts so that lengths stay syntactic: len(result) = len(old view) + len(added)
+		vc := fg.freshConst(fr.prefix+name+"_old", SString)
+		fg.assume(Eq(vc, view))
+		fg.assumeIf(reach, Eq(StrLen(vc), SLen(s)))
+		ac := add
+		if add.Kind != KConst && add.Kind != KStrLit {
+			ac = fg.freshConst(fr.prefix+name+"_add", SString)
+			fg.assume(Eq(ac, add))
+			fg.assumeIf(reach, Eq(StrLen(ac), k))
+		}
+		newLen := Add(StrLen(vc), StrLen(ac))
+		rc := MkSlice(newBase, IntLit(0), newLen, Add(newLen, StrLen(pad)))
+		fg.g.useTrusted("append on byte slices is modelled as a non-aliasing copy (in-place extension of a shared backing array is not observed through other slices)")
+		fg.set(st, mn, ms, Store(mem, newBase, StrCat(vc, ac, pad)))
 		return []*Term{rc}, st
 	}
 	// generic element slices: args[1] is a slice of new elements.
